@@ -1,1 +1,679 @@
-(* C13_Proofs.v — in progress *)
+(* C13_Proofs.v — lemmas and proofs for C13_Props.v *)
+From Coq Require Import Lia.
+From V Require Import C13_Consts C13_Model C13_Spec.
+Open Scope N_scope.
+
+(* ====================================================================== *)
+(* finite sweeps over the 256 byte values                                  *)
+(* ====================================================================== *)
+Definition all_bytes : list N := map N.of_nat (seq 0 256).
+
+Lemma all_bytes_in c : c < 256 -> In c all_bytes.
+Proof.
+  intros H. unfold all_bytes. apply in_map_iff. exists (N.to_nat c). split.
+  - apply Nnat.N2Nat.id.
+  - apply in_seq. lia.
+Qed.
+
+Lemma sweep (P : N -> bool) : forallb P all_bytes = true -> forall c, c < 256 -> P c = true.
+Proof. intros H c Hc. rewrite forallb_forall in H. apply H, all_bytes_in, Hc. Qed.
+
+Definition opt_is (o : option N) (v : N) : bool := match o with Some x => x =? v | None => false end.
+Definition printable (c : N) : bool := (32 <=? c) && (c <=? 126).
+
+(* what PercentEncodeMessage's table lookups give for a byte *)
+Definition esc_fact (c : N) : bool :=
+  match hex_at (c / 16), hex_at (c mod 16) with
+  | Done h, Done l =>
+    is_hex h && is_hex l && opt_is (unhex h) (c / 16) && opt_is (unhex l) (c mod 16)
+    && ((c / 16) * 16 + c mod 16 =? c) && printable h && printable l && negb (is_ws l)
+  | _, _ => false
+  end.
+Lemma esc_fact_all : forall c, c < 256 -> esc_fact c = true.
+Proof. apply sweep. vm_compute. reflexivity. Qed.
+
+(* an unescaped byte is printable, not '%'; white space is escaped or a space *)
+Definition plain_fact (c : N) : bool :=
+  should_escape c || (printable c && negb (c =? 37) && negb (c =? 9) && is_value_char c).
+Lemma plain_fact_all : forall c, c < 256 -> plain_fact c = true.
+Proof. apply sweep. vm_compute. reflexivity. Qed.
+
+Lemma printable_value c : printable c = true -> is_value_char c = true.
+Proof.
+  unfold printable, is_value_char. intros H. apply andb_true_iff in H as [H1 H2].
+  apply N.leb_le in H1. apply N.leb_le in H2.
+  destruct (N.eqb_spec c 9); simpl; [reflexivity|].
+  destruct (N.ltb_spec c 32); [lia|]. destruct (N.eqb_spec c 127); [lia|]. reflexivity.
+Qed.
+Lemma printable_not_nl c : printable c = true -> c <> 10.
+Proof. unfold printable. intros H E. subst c. discriminate H. Qed.
+
+(* ====================================================================== *)
+(* the grpc-message value: scanner silent, decodes back, survives trimming  *)
+(* ====================================================================== *)
+Definition ends_ok (e : bytes) : Prop := is_ws (hd 0 e) = false /\ is_ws (last e 0) = false.
+
+Lemma scan_escaped h l t : is_hex h = true -> is_hex l = true ->
+  scan_msg (37 :: h :: l :: t) 0 = scan_msg t 0.
+Proof. intros Hh Hl. cbn. rewrite Hh. cbn. rewrite Hl. reflexivity. Qed.
+
+Lemma last_cons_ne {A} (x : A) t d : t <> [] -> last (x :: t) d = last t d.
+Proof. destruct t; [congruence|reflexivity]. Qed.
+
+Lemma tm_loop_nonempty : forall r f t, tm_loop f r = Done t -> r <> [] -> t <> [].
+Proof.
+  intros [|c r] f t H NE; [congruence|]. cbn [tm_loop] in H.
+  destruct (tm_loop false r); [|discriminate].
+  destruct (should_escape c).
+  - destruct (hex_at (c / 16)); [|discriminate]. destruct (hex_at (c mod 16)); [|discriminate].
+    inversion H; discriminate.
+  - destruct ((f || is_nil r) && (c =? 32)); inversion H; discriminate.
+Qed.
+
+Lemma tm_loop_ok : forall m first, Forall is_byte m ->
+  exists e, tm_loop first m = Done e /\ scan_msg e 0 = [] /\ percent_decode e = Some m
+            /\ forallb printable e = true
+            /\ (first = true -> is_ws (hd 0 e) = false) /\ is_ws (last e 0) = false.
+Proof.
+  induction m as [|c r IH]; intros first HB.
+  - exists []. cbn. repeat split; auto.
+  - inversion HB as [|? ? Hc Hr]; subst.
+    destruct (IH false Hr) as (t & Et & St & Dt & Pt & _ & Lt).
+    pose proof (esc_fact_all c Hc) as EF. pose proof (plain_fact_all c Hc) as PF. unfold plain_fact in PF.
+    cbn [tm_loop]. rewrite Et. unfold esc_fact in EF.
+    destruct (hex_at (c / 16)) as [h|]; [|discriminate].
+    destruct (hex_at (c mod 16)) as [l|]; [|discriminate].
+    repeat (apply andb_true_iff in EF; destruct EF as [EF ?]).
+    assert (Hdec : percent_decode (37 :: h :: l :: t) = Some (c :: r)).
+    { cbn [percent_decode]. change (37 =? 37) with true. cbn match.
+      unfold opt_is in *. destruct (unhex h) as [x|]; [|discriminate]. destruct (unhex l) as [y|]; [|discriminate].
+      rewrite Dt. apply N.eqb_eq in H3. apply N.eqb_eq in H4. apply N.eqb_eq in H2. subst. rewrite H2. reflexivity. }
+    assert (Hlast3 : forall x, is_ws (last (37 :: h :: x :: t) 0) = false -> True) by auto.
+    assert (Hl3 : is_ws (last (37 :: h :: l :: t) 0) = false).
+    { destruct t as [|t0 t']; [cbn; apply negb_true_iff; assumption|].
+      rewrite !last_cons_ne by discriminate. exact Lt. }
+    destruct (should_escape c) eqn:SE.
+    + exists (37 :: h :: l :: t). split; [reflexivity|]. split; [rewrite scan_escaped; auto|].
+      split; [exact Hdec|]. split; [cbn; rewrite H1, H0, Pt; reflexivity|]. split; [reflexivity|exact Hl3].
+    + rewrite orb_false_l in PF. apply andb_true_iff in PF as [PF Pv]. apply andb_true_iff in PF as [PF P9].
+      apply andb_true_iff in PF as [Pp P37].
+      destruct ((first || is_nil r) && (c =? 32)) eqn:EDGE.
+      * apply andb_true_iff in EDGE as [_ E32]. apply N.eqb_eq in E32. subst c.
+        exists (37 :: 50 :: 48 :: t). split; [reflexivity|]. split; [rewrite scan_escaped; auto|].
+        split; [cbn [percent_decode]; cbn; rewrite Dt; reflexivity|].
+        split; [cbn; rewrite Pt; reflexivity|]. split; [reflexivity|].
+        destruct t as [|t0 t']; [reflexivity|]. rewrite !last_cons_ne by discriminate. exact Lt.
+      * exists (c :: t). split; [reflexivity|].
+        split; [cbn; rewrite SE; destruct (c =? 37); [discriminate|exact St]|].
+        split; [cbn [percent_decode]; destruct (c =? 37); [discriminate|rewrite Dt; reflexivity]|].
+        split; [cbn; rewrite Pp, Pt; reflexivity|].
+        assert (Wc : first || is_nil r = true -> is_ws c = false).
+        { intros HF. rewrite HF in EDGE. cbn in EDGE. unfold is_ws. rewrite EDGE.
+          apply negb_true_iff in P9. rewrite P9. reflexivity. }
+        split.
+        -- intros ->. cbn. apply Wc. reflexivity.
+        -- destruct r as [|r0 r'].
+           ++ cbn in Et. inversion Et; subst t. cbn. apply Wc. apply orb_true_r.
+           ++ rewrite last_cons_ne; [exact Lt|]. eapply tm_loop_nonempty; [exact Et|discriminate].
+Qed.
+
+Lemma trailer_message_ok m : Forall is_byte m ->
+  exists e, trailer_message m = Done e /\ scan_msg e 0 = [] /\ percent_decode e = Some m
+            /\ forallb printable e = true /\ ends_ok e.
+Proof.
+  intros H. destruct (tm_loop_ok m true H) as (e & E & S & D & P & Hh & Hl).
+  exists e. unfold trailer_message, ends_ok. auto 10.
+Qed.
+
+(* PercentEncodeMessage itself: scanner silent and url.PathUnescape gives the message back *)
+Lemma pe_loop_ok : forall m, Forall is_byte m ->
+  exists e, pe_loop m = Done e /\ scan_msg e 0 = [] /\ percent_decode e = Some m.
+Proof.
+  induction m as [|c r IH]; intros HB.
+  - exists []. cbn. auto.
+  - inversion HB as [|? ? Hc Hr]; subst. destruct (IH Hr) as (t & Et & St & Dt).
+    pose proof (esc_fact_all c Hc) as EF. pose proof (plain_fact_all c Hc) as PF. unfold plain_fact in PF.
+    cbn [pe_loop]. rewrite Et. unfold esc_fact in EF.
+    destruct (hex_at (c / 16)) as [h|]; [|discriminate].
+    destruct (hex_at (c mod 16)) as [l|]; [|discriminate].
+    repeat (apply andb_true_iff in EF; destruct EF as [EF ?]).
+    destruct (should_escape c) eqn:SE.
+    + exists (37 :: h :: l :: t). split; [reflexivity|]. split; [rewrite scan_escaped; auto|].
+      cbn [percent_decode]. change (37 =? 37) with true. cbn match.
+      unfold opt_is in *. destruct (unhex h) as [x|]; [|discriminate]. destruct (unhex l) as [y|]; [|discriminate].
+      rewrite Dt. apply N.eqb_eq in H3. apply N.eqb_eq in H4. apply N.eqb_eq in H2. subst. rewrite H2. reflexivity.
+    + rewrite orb_false_l in PF. apply andb_true_iff in PF as [PF Pv]. apply andb_true_iff in PF as [PF P9].
+      apply andb_true_iff in PF as [Pp P37]. apply negb_true_iff in P37.
+      exists (c :: t). split; [reflexivity|].
+      split; [cbn; rewrite SE, P37; exact St|]. cbn [percent_decode]. rewrite P37, Dt. reflexivity.
+Qed.
+
+Lemma no_escape_ok : forall m, filter should_escape m = [] -> Forall is_byte m ->
+  scan_msg m 0 = [] /\ percent_decode m = Some m.
+Proof.
+  induction m as [|c r IH]; intros HF HB; [cbn; auto|].
+  inversion HB as [|? ? Hc Hr]; subst. cbn [filter] in HF.
+  destruct (should_escape c) eqn:SE; [discriminate|]. destruct (IH HF Hr) as [S D].
+  pose proof (plain_fact_all c Hc) as PF. unfold plain_fact in PF. rewrite SE in PF. rewrite orb_false_l in PF.
+  apply andb_true_iff in PF as [PF Pv]. apply andb_true_iff in PF as [PF P9].
+  apply andb_true_iff in PF as [Pp P37]. apply negb_true_iff in P37.
+  split; [cbn; rewrite SE, P37; exact S|]. cbn [percent_decode]. rewrite P37, D. reflexivity.
+Qed.
+
+Lemma percent_scan_ok_proof : forall m, Forall is_byte m ->
+  exists e, percent_encode m = Done e /\ scan_msg e 0 = [] /\ percent_decode e = Some m.
+Proof.
+  intros m HB. unfold percent_encode.
+  destruct (filter should_escape m) eqn:F.
+  - cbn. exists m. destruct (no_escape_ok m F HB). auto.
+  - cbn [length]. replace (N.of_nat (S (length l)) =? 0) with false
+      by (symmetry; apply N.eqb_neq; lia). apply pe_loop_ok, HB.
+Qed.
+
+Lemma trailer_message_scan_ok_proof : forall m, Forall is_byte m ->
+  exists e, trailer_message m = Done e /\ scan_msg e 0 = [] /\ percent_decode e = Some m.
+Proof. intros m H. destruct (trailer_message_ok m H) as (e & ? & ? & ? & _). eauto. Qed.
+
+(* ====================================================================== *)
+(* trimming                                                                *)
+(* ====================================================================== *)
+Lemma rev_last (e : bytes) : e <> [] -> rev e = last e 0 :: rev (removelast e).
+Proof.
+  intros NE. rewrite (app_removelast_last 0 NE) at 1. rewrite rev_app_distr. reflexivity.
+Qed.
+
+Lemma trim_left_id e : is_ws (hd 0 e) = false -> trim_left_ws e = e.
+Proof. destruct e as [|c r]; [reflexivity|]. cbn. intros ->. reflexivity. Qed.
+
+Lemma trim_ws_ends e : ends_ok e -> trim_ws e = e.
+Proof.
+  intros [Hh Hl]. unfold trim_ws. rewrite (trim_left_id e Hh).
+  destruct e as [|c r]; [reflexivity|].
+  rewrite (rev_last (c :: r)) by discriminate. cbn [trim_left_ws]. rewrite Hl.
+  rewrite <- rev_last by discriminate. apply rev_involutive.
+Qed.
+
+(* the value of a rendered "name: value" line, as the parser trims it *)
+Lemma trim_sp_ends e : ends_ok e -> trim_ws (32 :: e) = e.
+Proof.
+  intros H. destruct e as [|c r]; [reflexivity|].
+  unfold trim_ws. cbn [trim_left_ws]. change (is_ws 32) with true. cbn match.
+  apply (trim_ws_ends (c :: r) H).
+Qed.
+
+Lemma ends_ok_forall e : forallb (fun c => negb (is_ws c)) e = true -> ends_ok e.
+Proof.
+  intros H. split.
+  - destruct e as [|c r]; [reflexivity|]. cbn in H. apply andb_true_iff in H as [H _].
+    apply negb_true_iff in H. exact H.
+  - destruct e as [|c r]; [reflexivity|].
+    assert (In (last (c :: r) 0) (c :: r)).
+    { rewrite (app_removelast_last 0 (l := c :: r)) at 2 by discriminate. apply in_or_app. right. left. reflexivity. }
+    rewrite forallb_forall in H. apply negb_true_iff, H, H0.
+Qed.
+
+Lemma forallb_rev {A} (f : A -> bool) l : forallb f (rev l) = forallb f l.
+Proof.
+  induction l as [|x l IH]; [reflexivity|]. cbn. rewrite forallb_app, IH. cbn.
+  rewrite andb_true_r. apply andb_comm.
+Qed.
+Lemma forallb_trim_left f s : forallb f s = true -> forallb f (trim_left_ws s) = true.
+Proof.
+  induction s as [|c r IH]; [auto|]. cbn. intros H. apply andb_true_iff in H as [Hc Hr].
+  destruct (is_ws c); [auto|]. cbn. rewrite Hc, Hr. reflexivity.
+Qed.
+Lemma forallb_trim f s : forallb f s = true -> forallb f (trim_ws s) = true.
+Proof.
+  intros H. unfold trim_ws. rewrite forallb_rev. apply forallb_trim_left.
+  rewrite forallb_rev. apply forallb_trim_left, H.
+Qed.
+
+(* ====================================================================== *)
+(* base64: decode (encode d) = d                                           *)
+(* ====================================================================== *)
+From Coq Require Import ZifyN.
+Ltac dm := zify; Z.div_mod_to_equations; lia.
+
+Lemma list_ind3 {A} (P : list A -> Prop) :
+  P [] -> (forall a, P [a]) -> (forall a b, P [a; b]) ->
+  (forall a b c r, P r -> P (a :: b :: c :: r)) -> forall l, P l.
+Proof.
+  intros H0 H1 H2 H3. fix IH 1. intros [|a [|b [|c r]]]; [exact H0|apply H1|apply H2|apply H3, IH].
+Qed.
+
+Definition b64_char_fact (n : N) : bool :=
+  negb (n <? 64) ||
+  (opt_is (b64_val (b64_char n)) n && printable (b64_char n) && negb (is_ws (b64_char n))
+   && negb (is_newline (b64_char n))).
+Lemma b64_char_all n : n < 64 ->
+  b64_val (b64_char n) = Some n /\ printable (b64_char n) = true /\ is_ws (b64_char n) = false
+  /\ is_newline (b64_char n) = false.
+Proof.
+  intros H. assert (F : b64_char_fact n = true) by (apply sweep; [vm_compute; reflexivity|lia]).
+  unfold b64_char_fact in F. destruct (N.ltb_spec n 64); [|lia]. cbn [negb andb orb] in F.
+  repeat (apply andb_true_iff in F; destruct F as [F ?]).
+  unfold opt_is in F. destruct (b64_val (b64_char n)); [|discriminate]. apply N.eqb_eq in F. subst.
+  repeat split; auto; apply negb_true_iff; assumption.
+Qed.
+
+Definition b64_okc (c : N) : bool := printable c && negb (is_ws c) && negb (is_newline c).
+
+Lemma b64_step t n : n < 64 -> forallb b64_okc t = true ->
+  forallb b64_okc (b64_char n :: t) = true.
+Proof.
+  intros H Ht. destruct (b64_char_all n H) as (_ & P & W & NL). cbn. unfold b64_okc at 1.
+  rewrite P, W, NL, Ht. reflexivity.
+Qed.
+
+Lemma b64_vals_cons n t l : n < 64 -> b64_vals t = Some l -> b64_vals (b64_char n :: t) = Some (n :: l).
+Proof. intros H E. destruct (b64_char_all n H) as (V & _). cbn. rewrite V, E. reflexivity. Qed.
+
+Lemma b64_roundtrip_nonl : forall d, Forall is_byte d ->
+  b64_raw_nonl (b64_encode d) = Some d /\ forallb b64_okc (b64_encode d) = true.
+Proof.
+  unfold b64_raw_nonl.
+  induction d as [| a | a b | a b c r IH] using list_ind3; intros HB.
+  - cbn. auto.
+  - inversion HB as [|? ? Ha _]; subst. unfold is_byte in Ha. cbn [b64_encode]. split.
+    + rewrite (b64_vals_cons (a / 4) _ [(a mod 4) * 16]);
+        [|dm|apply b64_vals_cons; [dm|reflexivity]].
+      cbn. f_equal. f_equal. dm.
+    + repeat (apply b64_step; [dm|]). reflexivity.
+  - inversion HB as [|? ? Ha HB']; subst. inversion HB' as [|? ? Hb _]; subst. unfold is_byte in *.
+    cbn [b64_encode]. split.
+    + rewrite (b64_vals_cons (a / 4) _ [(a mod 4) * 16 + b / 16; (b mod 16) * 4]);
+        [|dm|apply b64_vals_cons; [dm|]; apply b64_vals_cons; [dm|reflexivity]].
+      cbn. f_equal. f_equal; [dm|]. f_equal. dm.
+    + repeat (apply b64_step; [dm|]). reflexivity.
+  - inversion HB as [|? ? Ha HB']; subst. inversion HB' as [|? ? Hb HB'']; subst.
+    inversion HB'' as [|? ? Hc Hr]; subst. unfold is_byte in *.
+    destruct (IH Hr) as [IH1 IH2]. cbn [b64_encode]. split.
+    + destruct (b64_vals (b64_encode r)) as [l|] eqn:EV; [|discriminate].
+      rewrite (b64_vals_cons (a / 4) _ ((a mod 4) * 16 + b / 16 :: (b mod 16) * 4 + c / 64 :: c mod 64 :: l));
+        [|dm|apply b64_vals_cons; [dm|]; apply b64_vals_cons; [dm|]; apply b64_vals_cons; [dm|exact EV]].
+      cbn [b64_groups]. rewrite IH1. f_equal. f_equal; [dm|]. f_equal; [dm|]. f_equal. dm.
+    + repeat (apply b64_step; [dm|]). exact IH2.
+Qed.
+
+Lemma filter_id {A} (f : A -> bool) l : forallb f l = true -> filter f l = l.
+Proof.
+  induction l as [|x l IH]; [reflexivity|]. cbn. intros H. apply andb_true_iff in H as [Hx Hl].
+  rewrite Hx, IH by exact Hl. reflexivity.
+Qed.
+
+Lemma forallb_impl {A} (f g : A -> bool) l :
+  (forall x, f x = true -> g x = true) -> forallb f l = true -> forallb g l = true.
+Proof. intros H. rewrite !forallb_forall. auto. Qed.
+
+Lemma b64_roundtrip d : Forall is_byte d ->
+  b64_decode_raw (b64_encode d) = Some d /\ forallb printable (b64_encode d) = true
+  /\ ends_ok (b64_encode d).
+Proof.
+  intros HB. destruct (b64_roundtrip_nonl d HB) as [R OK]. unfold b64_decode_raw, strip_nl.
+  rewrite filter_id.
+  - split; [exact R|]. split.
+    + eapply forallb_impl; [|exact OK]. unfold b64_okc. intros x H.
+      apply andb_true_iff in H as [H _]. apply andb_true_iff in H as [H _]. exact H.
+    + apply ends_ok_forall. eapply forallb_impl; [|exact OK]. unfold b64_okc. intros x H.
+      apply andb_true_iff in H as [H _]. apply andb_true_iff in H as [_ H]. exact H.
+  - eapply forallb_impl; [|exact OK]. unfold b64_okc. intros x H. apply andb_true_iff in H as [_ H]. exact H.
+Qed.
+
+(* ====================================================================== *)
+(* the decimal status code                                                 *)
+(* ====================================================================== *)
+Definition code_fact (c : N) : bool :=
+  negb ((1 <=? c) && (c <=? 16)) ||
+  (match atoi (dec_of_N c) with Some z => (z =? Z.of_N c)%Z | None => false end
+   && forallb printable (dec_of_N c) && forallb (fun x => negb (is_ws x)) (dec_of_N c)).
+Lemma code_ok c : 1 <= c <= 16 ->
+  atoi (dec_of_N c) = Some (Z.of_N c) /\ forallb printable (dec_of_N c) = true /\ ends_ok (dec_of_N c).
+Proof.
+  intros [H1 H2]. assert (F : code_fact c = true) by (apply sweep; [vm_compute; reflexivity|lia]).
+  unfold code_fact in F. destruct (N.leb_spec 1 c); [|lia]. destruct (N.leb_spec c 16); [|lia]. cbn [negb andb orb] in F.
+  apply andb_true_iff in F as [F W]. apply andb_true_iff in F as [F P].
+  destruct (atoi (dec_of_N c)) as [z|]; [|discriminate]. apply Z.eqb_eq in F. subst z.
+  split; [reflexivity|]. split; [exact P|]. apply ends_ok_forall, W.
+Qed.
+
+(* ====================================================================== *)
+(* checkGRPCStatus is silent on an agreeing status trio                     *)
+(* ====================================================================== *)
+Lemma check_status_silent unmarshal h d c pm msg :
+  hget h k_status = [d] -> atoi d = Some (Z.of_N c) -> 1 <= c <= 16 ->
+  hget h k_message = [pm] -> scan_msg pm 0 = [] -> percent_decode pm = Some msg ->
+  (hget h k_details = [] \/
+   exists b data nd, hget h k_details = [b] /\ b64_decode_raw b = Some data /\
+                     unmarshal data = UOk (to_i32 (Z.of_N c)) msg nd) ->
+  check_grpc_status unmarshal h = Done [].
+Proof.
+  intros Hs Ha Hc Hm Hsc Hpd Hd. unfold check_grpc_status. rewrite Hs, Hm. cbn [length Nat.ltb Nat.leb Nat.eqb].
+  rewrite Ha.
+  assert (R : ((Z.of_N c <? 0)%Z || (16 <? Z.of_N c)%Z) = false).
+  { apply orb_false_iff. split; [apply Z.ltb_ge|apply Z.ltb_ge]; lia. }
+  rewrite R. rewrite Hsc, Hpd.
+  assert (NZ : (Z.of_N c =? 0)%Z = false) by (apply Z.eqb_neq; lia). rewrite NZ. cbn [andb app].
+  destruct Hd as [Hd | (b & data & nd & Hd & Hb & Hu)]; rewrite Hd; cbn [length Nat.ltb Nat.leb Nat.eqb app].
+  - reflexivity.
+  - unfold check_details. rewrite Hb, Hu. rewrite Z.eqb_refl.
+    assert (NZ' : (to_i32 (Z.of_N c) =? 0)%Z = false).
+    { apply Z.eqb_neq. unfold to_i32, two32, two31.
+      rewrite Z.mod_small by lia. destruct (Z.ltb_spec (Z.of_N c) 2147483648); lia. }
+    rewrite NZ'. rewrite bytes_eqb_refl. reflexivity.
+Qed.
+
+(* ====================================================================== *)
+(* gRPC: the status trailers as net/http delivers them                      *)
+(* ====================================================================== *)
+Lemma to_map2 d e :
+  to_map [(bs "grpc-status", [d]); (bs "grpc-message", [e])] = [(k_status, [d]); (k_message, [e])].
+Proof. reflexivity. Qed.
+Lemma to_map3 d e b :
+  to_map [(bs "grpc-status", [d]); (bs "grpc-message", [e]); (bs "grpc-status-details-bin", [b])]
+  = [(k_status, [d]); (k_message, [e]); (k_details, [b])].
+Proof. reflexivity. Qed.
+
+Lemma grpc_clean_proof : forall marshal unmarshal code msg details,
+  proto_roundtrip marshal unmarshal -> 1 <= code <= 16 -> Forall is_byte msg ->
+  exists st, grpc_status_trailers marshal code msg details = Done st /\
+             check_grpc_status unmarshal (to_map st) = Done [].
+Proof.
+  intros marshal unmarshal code msg details RT Hc HB.
+  destruct (trailer_message_ok msg HB) as (e & E & S & D & _ & _).
+  destruct (code_ok code Hc) as (A & _ & _).
+  unfold grpc_status_trailers. rewrite E.
+  destruct (Nat.ltb 0 (length details)).
+  - destruct (marshal _ _ _) as [data|] eqn:M.
+    + destruct (RT _ _ _ _ M) as [U DB]. destruct (b64_roundtrip data DB) as (R & _ & _).
+      eexists. split; [reflexivity|]. cbn [app]. rewrite to_map3.
+      eapply check_status_silent; try reflexivity; eauto.
+      right. exists (b64_encode data), data. eexists. split; [reflexivity|]. split; [exact R|]. exact U.
+    + eexists. split; [reflexivity|]. cbn [app]. rewrite to_map2.
+      eapply check_status_silent; try reflexivity; eauto.
+  - eexists. split; [reflexivity|]. cbn [app]. rewrite to_map2.
+    eapply check_status_silent; try reflexivity; eauto.
+Qed.
+
+(* ====================================================================== *)
+(* gRPC-Web: the rendered trailer block parses silently                     *)
+(* ====================================================================== *)
+Definition token_fact (c : N) : bool :=
+  is_token_char c && is_token_char (lower_byte c) && negb (is_ws (lower_byte c))
+  && negb (lower_byte c =? 58) && negb (lower_byte c =? 10) && negb (is_upper (lower_byte c))
+  && is_ascii (lower_byte c).
+Lemma tchar_fact c : tchar c -> token_fact c = true.
+Proof.
+  unfold tchar. intros H.
+  assert (F : forallb token_fact (bs "!#$%&'*+-.^_`|~0123456789abcdefghijklmnopqrstuvwxyzABCDEFGHIJKLMNOPQRSTUVWXYZ") = true)
+    by (vm_compute; reflexivity).
+  rewrite forallb_forall in F. apply F, H.
+Qed.
+
+Lemma vchar_fact c : vchar c -> is_value_char c = true /\ c <> 10.
+Proof.
+  unfold vchar, is_value_char. intros [->|[H1 H2]]; [split; [reflexivity|discriminate]|]. split; [|lia].
+  destruct (N.eqb_spec c 9); [reflexivity|]. cbn [negb andb].
+  destruct (N.ltb_spec c 32); [lia|]. destruct (N.eqb_spec c 127); [lia|]. reflexivity.
+Qed.
+
+Definition good_pair (nv : bytes * bytes) : Prop :=
+  Forall (fun c => token_fact c = true) (fst nv) /\ Forall vchar (snd nv).
+Definition mkline (nv : bytes * bytes) : bytes := lower (fst nv) ++ 58 :: 32 :: snd nv.
+Definition pairs_of (hs : list header) : list (bytes * bytes) :=
+  flat_map (fun h => map (pair (fst h)) (snd h)) hs.
+Definition addp (m : hmap) (nv : bytes * bytes) : hmap :=
+  happend m (canonical_key (lower (fst nv))) (trim_ws (32 :: snd nv)).
+
+Lemma render_line_eq n v : render_line n v = (mkline (n, v) ++ [13]) ++ [10].
+Proof. unfold render_line, mkline. cbn [fst snd]. rewrite <- !app_assoc. reflexivity. Qed.
+
+Lemma render_block_pairs hs :
+  render_block hs = flat_map (fun nv => (mkline nv ++ [13]) ++ [10]) (pairs_of hs).
+Proof.
+  unfold render_block, pairs_of. induction hs as [|h hs IH]; [reflexivity|].
+  cbn [flat_map]. rewrite flat_map_app, IH. f_equal.
+  unfold render_header. induction (snd h) as [|v vs IHv]; [reflexivity|].
+  cbn [flat_map map]. rewrite IHv, render_line_eq. reflexivity.
+Qed.
+
+Lemma lower_token n : Forall (fun c => token_fact c = true) n ->
+  forallb is_token_char (lower n) = true /\ ~ In 58 (lower n) /\ ~ In 10 (lower n)
+  /\ existsb is_upper (lower n) = false /\ forallb is_ascii (lower n) = true /\ starts_ws (lower n) = false.
+Proof.
+  induction 1 as [|c r Hc Hr IH]; [cbn; intuition|].
+  pose proof Hc as F. unfold token_fact in F.
+  repeat (apply andb_true_iff in F; destruct F as [F ?]).
+  destruct IH as (I1 & I2 & I3 & I4 & I5 & _).
+  apply negb_true_iff in H0, H1, H2, H3. apply N.eqb_neq in H1, H2.
+  change (lower (c :: r)) with (lower_byte c :: lower r). cbn [forallb existsb starts_ws].
+  rewrite H4, I1, H0, I4, H, I5. repeat split; auto.
+  - intros [E|E]; [congruence|auto].
+  - intros [E|E]; [congruence|auto].
+Qed.
+
+Lemma good_line_nosep nv : good_pair nv -> no_sep 10 (mkline nv ++ [13]).
+Proof.
+  intros [Hn Hv]. destruct (lower_token _ Hn) as (_ & _ & N10 & _).
+  unfold no_sep, mkline. intros HI. apply in_app_or in HI as [HI|[HI|[]]]; [|discriminate].
+  apply in_app_or in HI as [HI|[HI|[HI|HI]]]; [auto|discriminate|discriminate|].
+  rewrite Forall_forall in Hv. destruct (vchar_fact _ (Hv _ HI)) as [_ NE]. congruence.
+Qed.
+
+Lemma split_lines ps : Forall good_pair ps ->
+  split_on 10 (flat_map (fun nv => (mkline nv ++ [13]) ++ [10]) ps) = map (fun nv => mkline nv ++ [13]) ps ++ [[]].
+Proof.
+  induction 1 as [|nv ps Hg Hr IH]; [reflexivity|].
+  cbn [flat_map map app]. rewrite <- app_assoc. cbn [app].
+  rewrite split_on_app by (apply good_line_nosep, Hg). rewrite IH. reflexivity.
+Qed.
+
+Lemma cut_colon_app a r : ~ In 58 a -> cut_colon (a ++ 58 :: r) = Some (a, r).
+Proof.
+  induction a as [|c a IH]; intros H; [reflexivity|]. cbn.
+  destruct (N.eqb_spec c 58) as [->|_]; [exfalso; apply H; left; reflexivity|].
+  rewrite IH; [reflexivity|]. intros HI. apply H. right. exact HI.
+Qed.
+
+Lemma ends_cr_app x : ends_cr (x ++ [13]) = true /\ strip_cr (x ++ [13]) = x.
+Proof. unfold ends_cr, strip_cr. rewrite rev_app_distr. cbn. split; [reflexivity|apply rev_involutive]. Qed.
+
+Lemma value_ok v : Forall vchar v -> valid_field_value (trim_ws (32 :: v)) = true.
+Proof.
+  intros H. apply forallb_trim. cbn. apply forallb_forall. intros c Hc.
+  rewrite Forall_forall in H. apply vchar_fact, H, Hc.
+Qed.
+
+(* one well-formed line, not the last one, no blank line seen so far *)
+Lemma eos_step_good n i nv s : good_pair nv -> Nat.eqb (i + 1) n = false -> e_blanks s = 0%nat ->
+  eos_step n i (mkline nv ++ [13]) s =
+  Done (mk_est (addp (e_tr s) nv) (e_nocr s) 0%nat (e_crlf s) (e_blank_end s) (e_folds s)
+               (canonical_key (lower (fst nv))) (e_out s)).
+Proof.
+  intros [Hn Hv] Hi Hb. destruct (lower_token _ Hn) as (T & C58 & _ & U & A & W).
+  destruct (ends_cr_app (mkline nv)) as [EC SC].
+  unfold eos_step. rewrite Hi. cbn [andb]. rewrite EC, SC.
+  assert (NN : is_nil (mkline nv) = false) by (unfold mkline; destruct (lower (fst nv)); reflexivity).
+  rewrite NN. unfold split_n2, mkline at 1. rewrite cut_colon_app by exact C58.
+  rewrite W, andb_false_r. unfold field_fb, valid_field_name, not_lower.
+  rewrite T, U, A, (value_ok _ Hv), Hb. cbn [andb app]. rewrite app_nil_r. reflexivity.
+Qed.
+
+Lemma eos_loop_good : forall ps n i s, Forall good_pair ps -> e_blanks s = 0%nat ->
+  n = (i + length ps + 1)%nat ->
+  exists prev, eos_loop n i (map (fun nv => mkline nv ++ [13]) ps ++ [[]]) s =
+    Done (mk_est (fold_left addp ps (e_tr s)) (e_nocr s) 0%nat true (e_blank_end s) (e_folds s) prev (e_out s)).
+Proof.
+  induction ps as [|nv ps IH]; intros n i s HG Hb Hn.
+  - cbn [map app eos_loop length] in *. unfold eos_step.
+    replace (Nat.eqb (i + 1) n) with true by (symmetry; apply Nat.eqb_eq; lia).
+    cbn [andb is_nil fold_left]. rewrite Hb. eexists. reflexivity.
+  - inversion HG as [|? ? Hg HG']; subst. cbn [map app eos_loop length].
+    rewrite eos_step_good; [|exact Hg|apply Nat.eqb_neq; cbn [length]; lia|exact Hb].
+    destruct (IH (i + S (length ps) + 1)%nat (S i)
+                 (mk_est (addp (e_tr s) nv) (e_nocr s) 0%nat (e_crlf s) (e_blank_end s) (e_folds s)
+                         (canonical_key (lower (fst nv))) (e_out s)) HG' eq_refl) as [prev E];
+      [cbn [length]; lia|].
+    cbn [length]. rewrite E. cbn [e_tr e_nocr e_crlf e_blank_end e_folds e_out fold_left]. eexists. reflexivity.
+Qed.
+
+Lemma examine_block_good hs : Forall good_pair (pairs_of hs) ->
+  examine_grpc_end_stream (render_block hs) = Done ([], fold_left addp (pairs_of hs) []).
+Proof.
+  intros HG. unfold examine_grpc_end_stream. rewrite render_block_pairs, split_lines by exact HG. cbv zeta.
+  destruct (eos_loop_good (pairs_of hs) (length (map (fun nv => mkline nv ++ [13]) (pairs_of hs) ++ [[]])) 0 est0 HG eq_refl)
+    as [prev E].
+  { rewrite app_length, map_length. cbn. lia. }
+  match goal with |- match ?X with Done _ => _ | Crash => _ end = _ =>
+    let EX := fresh in pose proof (E : X = _) as EX; rewrite EX end.
+  reflexivity.
+Qed.
+
+(* ---------- the parsed map: the status trio first, user trailers never touch it ---------- *)
+Lemma hget_hput_other m k k' vs : k <> k' -> hget (hput m k' vs) k = hget m k.
+Proof.
+  intros NE. induction m as [|[k0 v0] m IH]; cbn.
+  - destruct (bytes_eqb_spec k k'); [congruence|reflexivity].
+  - destruct (bytes_eqb_spec k' k0) as [->|N0]; cbn.
+    + destruct (bytes_eqb_spec k k0); [congruence|reflexivity].
+    + destruct (bytes_eqb_spec k k0); [reflexivity|exact IH].
+Qed.
+
+Lemma hget_fold_other : forall ps m k,
+  (forall nv, In nv ps -> canonical_key (lower (fst nv)) <> k) ->
+  hget (fold_left addp ps m) k = hget m k.
+Proof.
+  induction ps as [|nv ps IH]; intros m k H; [reflexivity|]. cbn [fold_left].
+  rewrite IH by (intros; apply H; right; assumption).
+  unfold addp, happend. apply hget_hput_other. intros E. apply (H nv); [left; reflexivity|auto].
+Qed.
+
+Lemma lower_upper_byte c : lower_byte (upper_byte c) = lower_byte c.
+Proof.
+  unfold lower_byte, upper_byte.
+  destruct (N.leb_spec 97 c), (N.leb_spec c 122); cbn [andb];
+    repeat match goal with |- context [N.leb ?a ?b] => destruct (N.leb_spec a b) end; cbn [andb]; lia.
+Qed.
+Lemma lower_lower_byte c : lower_byte (lower_byte c) = lower_byte c.
+Proof.
+  unfold lower_byte.
+  destruct (N.leb_spec 65 c), (N.leb_spec c 90); cbn [andb];
+    repeat match goal with |- context [N.leb ?a ?b] => destruct (N.leb_spec a b) end; cbn [andb]; lia.
+Qed.
+Lemma lower_canon_go : forall x up, lower (canon_go up x) = lower x.
+Proof.
+  induction x as [|c r IH]; intros up; [reflexivity|]. cbn [canon_go].
+  change (lower (?a :: ?b)) with (lower_byte a :: lower b). rewrite IH. f_equal.
+  destruct up; [apply lower_upper_byte|apply lower_lower_byte].
+Qed.
+Lemma lower_canonical x : lower (canonical_key x) = lower x.
+Proof. unfold canonical_key. destruct (forallb is_token_char x); [apply lower_canon_go|reflexivity]. Qed.
+Lemma lower_idem x : lower (lower x) = lower x.
+Proof. unfold lower. rewrite map_map. apply map_ext, lower_lower_byte. Qed.
+
+Lemma user_key_not_status n k : ~ In (lower n) status_names -> In (lower k) status_names ->
+  canonical_key (lower n) <> k.
+Proof.
+  intros HN HK E. apply HN. rewrite <- E in HK. rewrite lower_canonical, lower_idem in HK. exact HK.
+Qed.
+
+Lemma printable_vchar c : printable c = true -> vchar c.
+Proof.
+  unfold printable, vchar. intros H. apply andb_true_iff in H as [H1 H2].
+  apply N.leb_le in H1. apply N.leb_le in H2. right. lia.
+Qed.
+Lemma printable_all_vchar e : forallb printable e = true -> Forall vchar e.
+Proof. rewrite forallb_forall, Forall_forall. intros H c Hc. apply printable_vchar, H, Hc. Qed.
+
+Lemma status_name_token n : In n status_names -> Forall (fun c => token_fact c = true) n.
+Proof.
+  intros H. apply Forall_forall. intros c Hc.
+  assert (F : forallb (forallb token_fact) status_names = true) by (vm_compute; reflexivity).
+  rewrite forallb_forall in F. specialize (F n H). rewrite forallb_forall in F. apply F, Hc.
+Qed.
+
+Lemma in_pairs_of nv hs : In nv (pairs_of hs) -> exists h, In h hs /\ fst nv = fst h /\ In (snd nv) (snd h).
+Proof.
+  unfold pairs_of. intros H. apply in_flat_map in H as (h & Hh & Hin).
+  apply in_map_iff in Hin as (v & <- & Hv). exists h. auto.
+Qed.
+
+Lemma wf_meta_good hs : wf_meta hs -> Forall good_pair (pairs_of hs).
+Proof.
+  intros W. apply Forall_forall. intros nv Hin. destruct (in_pairs_of _ _ Hin) as (h & Hh & En & Hv).
+  unfold wf_meta in W. rewrite Forall_forall in W. destruct (W h Hh) as (T & _ & V).
+  split.
+  - rewrite En. apply Forall_forall. intros c Hc. rewrite Forall_forall in T. apply tchar_fact, T, Hc.
+  - rewrite Forall_forall in V. apply V, Hv.
+Qed.
+
+Lemma fold2 d e : fold_left addp [(bs "grpc-status", d); (bs "grpc-message", e)] []
+  = [(k_status, [trim_ws (32 :: d)]); (k_message, [trim_ws (32 :: e)])].
+Proof. reflexivity. Qed.
+Lemma fold3 d e b :
+  fold_left addp [(bs "grpc-status", d); (bs "grpc-message", e); (bs "grpc-status-details-bin", b)] []
+  = [(k_status, [trim_ws (32 :: d)]); (k_message, [trim_ws (32 :: e)]); (k_details, [trim_ws (32 :: b)])].
+Proof. reflexivity. Qed.
+
+Lemma status_keys : In (lower k_status) status_names /\ In (lower k_message) status_names
+                    /\ In (lower k_details) status_names.
+Proof. vm_compute. tauto. Qed.
+
+Lemma grpc_web_clean_proof : forall marshal unmarshal code msg details trailers,
+  proto_roundtrip marshal unmarshal -> 1 <= code <= 16 -> Forall is_byte msg -> wf_meta trailers ->
+  exists blk parsed,
+    grpc_web_end_stream marshal code msg details trailers = Done blk /\
+    examine_grpc_end_stream blk = Done ([], parsed) /\
+    check_grpc_status unmarshal parsed = Done [].
+Proof.
+  intros marshal unmarshal code msg details trailers RT Hc HB WF.
+  destruct (trailer_message_ok msg HB) as (e & E & S & D & Pe & Ee).
+  destruct (code_ok code Hc) as (A & Pd & Ed).
+  destruct status_keys as (KS & KM & KD).
+  pose proof (wf_meta_good _ WF) as GU.
+  assert (OTHER : forall k, In (lower k) status_names ->
+            forall nv, In nv (pairs_of trailers) -> canonical_key (lower (fst nv)) <> k).
+  { intros k Hk nv Hin. destruct (in_pairs_of _ _ Hin) as (h & Hh & En & _).
+    unfold wf_meta in WF. rewrite Forall_forall in WF. destruct (WF h Hh) as (_ & NS & _).
+    rewrite En. apply user_key_not_status; assumption. }
+  assert (G1 : good_pair (bs "grpc-status", dec_of_N code)).
+  { split; [apply status_name_token; left; reflexivity|apply printable_all_vchar, Pd]. }
+  assert (G2 : good_pair (bs "grpc-message", e)).
+  { split; [apply status_name_token; right; left; reflexivity|apply printable_all_vchar, Pe]. }
+  unfold grpc_web_end_stream, grpc_status_trailers. rewrite E.
+  set (base := [(bs "grpc-status", [dec_of_N code]); (bs "grpc-message", [e])]).
+  assert (CASE : forall extra b,
+     (extra = [] \/ exists data nd, extra = [(bs "grpc-status-details-bin", [b64_encode data])] /\ b = b64_encode data /\
+                     Forall is_byte data /\ unmarshal data = UOk (to_i32 (Z.of_N code)) msg nd) ->
+     exists parsed, examine_grpc_end_stream (render_block ((base ++ extra) ++ trailers)) = Done ([], parsed) /\
+                    check_grpc_status unmarshal parsed = Done []).
+  { intros extra b [->|(data & nd & -> & -> & DB & U)].
+    - eexists. split.
+      + apply examine_block_good. unfold pairs_of. rewrite flat_map_app. apply Forall_app. split; [|exact GU].
+        cbn [base app flat_map map fst snd]. repeat (apply Forall_cons; [assumption|]). apply Forall_nil.
+      + unfold pairs_of at 1. rewrite flat_map_app, fold_left_app. cbn [base app flat_map map fst snd].
+        rewrite fold2. rewrite !trim_sp_ends by assumption.
+        eapply check_status_silent; try (rewrite hget_fold_other by (apply OTHER; assumption)); try reflexivity; eauto.
+        all: try (left; try rewrite hget_fold_other by (apply OTHER; assumption); reflexivity).
+    - destruct (b64_roundtrip data DB) as (R & Pb & Eb).
+      assert (G3 : good_pair (bs "grpc-status-details-bin", b64_encode data)).
+      { split; [apply status_name_token; right; right; left; reflexivity|apply printable_all_vchar, Pb]. }
+      eexists. split.
+      + apply examine_block_good. unfold pairs_of. rewrite flat_map_app. apply Forall_app. split; [|exact GU].
+        cbn [base app flat_map map fst snd]. repeat (apply Forall_cons; [assumption|]). apply Forall_nil.
+      + unfold pairs_of at 1. rewrite flat_map_app, fold_left_app. cbn [base app flat_map map fst snd].
+        rewrite fold3. rewrite !trim_sp_ends by assumption.
+        eapply check_status_silent; try (rewrite hget_fold_other by (apply OTHER; assumption)); try reflexivity; eauto.
+        all: try (right; exists (b64_encode data), data, nd; try rewrite hget_fold_other by (apply OTHER; assumption);
+                  split; [reflexivity|]; split; [exact R|exact U]).
+        }
+  destruct (Nat.ltb 0 (length details)).
+  - destruct (marshal _ _ _) as [data|] eqn:M.
+    + destruct (RT _ _ _ _ M) as [U DB].
+      destruct (CASE [(bs "grpc-status-details-bin", [b64_encode data])] (b64_encode data)) as (parsed & P1 & P2).
+      { right. exists data. eexists. repeat split; eauto. }
+      eexists. exists parsed. split; [reflexivity|]. split; assumption.
+    + destruct (CASE [] []) as (parsed & P1 & P2); [left; reflexivity|].
+      eexists. exists parsed. split; [reflexivity|]. split; assumption.
+  - destruct (CASE [] []) as (parsed & P1 & P2); [left; reflexivity|].
+    eexists. exists parsed. split; [reflexivity|]. split; assumption.
+Qed.
